@@ -39,6 +39,10 @@ ASSUME = [
     "close-order clause is evaluated when the closer flushed (xcm_finish()==0) before xcm_close, no deviation hit the close "
     "itself, and nothing was under way towards the closer (a reset may legitimately destroy data otherwise, as on plain TCP); "
     "all clauses are void once the environment has withheld a connection establishment for tcp.connect_timeout (3 s virtual)",
+    "pairing phase: a destination that is not listening (ux/uxf: the relay's outbound xcm_connect_a fails synchronously) or an "
+    "injected NULL/EMFILE result of the relay's outbound xcm_connect_a (cfault=1, one fault alternative per call, 1 deviation) "
+    "must cost exactly the one client concerned; the two applications are synchronised out of band on 'stopped listening' / "
+    "'listens again'; a full accept backlog (connect EAGAIN) is not driven",
     "bounds: every choice sequence with at most D deviations (preemptions + environment deviations) per configuration; a "
     "violation needing more deviations, longer scripts or more than two concurrent connections is not excluded",
 ]
@@ -46,7 +50,7 @@ ASSUME = [
 CERTS = os.path.join(msgfamily.PKI, "good_a")
 
 
-def P(lc, ls, script, menu=MENU_FULL, dev="all", gran="loop"):
+def P(lc, ls, script, menu=MENU_FULL, dev="all", gran="loop", cfault=0):
     p = "lc=%s,ls=%s,script=%s" % (lc, ls, script)
     if menu is not None:
         p += ",menu=0x%x" % menu
@@ -54,6 +58,8 @@ def P(lc, ls, script, menu=MENU_FULL, dev="all", gran="loop"):
         p += ",dev=" + dev
     if gran != "loop":
         p += ",gran=" + gran
+    if cfault:
+        p += ",cfault=1"
     if any(t in (lc, ls) for t in ("tls", "utls", "btls")):
         p += ",certs=" + CERTS
     return p
@@ -65,6 +71,27 @@ BS_PAIRS = (("btcp", "btls"), ("btls", "btcp"), ("btcp", "btcp"))
 
 def has_tls(lc, ls):
     return "tls" in (lc, ls) or "btls" in (lc, ls)
+
+
+PAIRING_PAIRS = (("ux", "ux"), ("tcp", "ux"), ("ux", "uxf"), ("tcp", "uxf"))
+
+
+def pairing_configs(q):
+    """Pairing phase: a client whose outbound leg cannot be set up is dropped, nothing else happens.
+    P1: c0 relayed and talking; destination stops listening; c1 connects (outbound ux/uxf connect fails synchronously)
+    and must just be dropped; c0<->s0 go on both ways; destination listens again; c2 is served.  P2: destination has
+    never listened.  cfault=1: the relay's xcm_connect_a itself returns NULL/EMFILE (one labelled fault alternative per
+    outbound connect) - reaches the same path on pairs whose refusals are otherwise asynchronous."""
+    c = []
+    for lc, ls in PAIRING_PAIRS:
+        c.append((P(lc, ls, "P1"), 2 if (not q or lc == "ux") else 1))
+        c.append((P(lc, ls, "P2"), 2 if (not q or lc == "ux") else 1))
+    for lc, ls, d in (("tcp", "tcp", 2), ("ux", "tcp", 2), ("tcp", "tls", 1), ("tls", "tcp", 1)):
+        c.append((P(lc, ls, "M1", MENU_CORE, cfault=1), 1 if q else d))
+    if not q:
+        c.append((P("ux", "tcp", "R3", MENU_CORE, cfault=1), 2))
+        c.append((P("tcp", "ux", "M3", MENU_CORE, cfault=1), 2))
+    return c
 
 
 def configs(tier):
@@ -93,6 +120,7 @@ def configs(tier):
         c.append((P("btcp", "btcp", "B2", MENU_CORE), 3))
         c.append((P("btcp", "btcp", "B4", MENU_CORE), 3))
         c.append((P("tcp", "tcp", "R1", gran="api"), 1, "asan"))
+        c += pairing_configs(True)
         return c
     # thorough
     cheap = (("ux", "tcp"), ("tcp", "ux"), ("utls", "ux"), ("tcp", "tcp"))
@@ -137,6 +165,7 @@ def configs(tier):
     c.append((P("ux", "tcp", "R1s", MENU_CORE, dev="relay"), 4))
     c.append((P("tcp", "ux", "R2s", MENU_CORE, dev="relay"), 4))
     c.append((P("btcp", "btcp", "B2", MENU_CORE, dev="relay"), 4))
+    c += pairing_configs(False)
     return c
 
 
@@ -206,6 +235,6 @@ def run_configs(chk, cfgs, jobs, deadline_s):
 
 def run(chk, tier, jobs, deadline):
     chk.assumptions += ASSUME
-    run_configs(chk, configs(tier), jobs, deadline or (900 if tier == "quick" else 3300))
-    chk.add_cov(leg_pairs=["%s<->%s" % p for p in MSG_PAIRS + BS_PAIRS + (("tcp", "tcp"),)],
+    run_configs(chk, configs(tier), jobs, deadline or (900 if tier == "quick" else 2400))
+    chk.add_cov(leg_pairs=["%s<->%s" % p for p in MSG_PAIRS + BS_PAIRS + (("tcp", "tcp"),) + PAIRING_PAIRS],
                 max_deviation_bound_completed=max(c[1] for c in configs(tier)))
